@@ -579,7 +579,7 @@ class _PiecesLoop(GhostIterable):
         h.check("the loop does not stop early", not broke)
         h.check("source gate unchanged", snapshot(g.__dict__) == self.gb)
         for k in ("circuits", "measure_qubits", "cmeasure_flags"):
-            h.check(f"{k}: prefix kept (not rebound)", env.lookup(k) is L[k])
+            h.shape(f"{k}: prefix kept (not rebound)", env.lookup(k) is L[k])
         if g.name not in ("MEASURE", "CMEASURE"):
             h.check("unitary gate: nothing recorded as a measurement, no circuit closed", all(L[k].appended == [] for k in ("circuits", "measure_qubits", "cmeasure_flags")) and self.init_calls == [])
             h.check("unitary gate: current piece kept and extended by exactly one gate", env.lookup("gates") is L["gates"] and len(L["gates"].appended) == 1)
@@ -636,7 +636,7 @@ def p1(h, st):
     src = Circuit.__new__(Circuit)
     src.__dict__ = {"_gates": proto}
     out = h.call(C, "get_unitary_circuit_pieces", src)
-    h.check("the loop body was entered once for the generic gate", proto.iterations == 1)
+    h.shape("the loop body was entered once for the generic gate", proto.iterations == 1)
     h.check("after the loop: the last piece is closed and appended", len(init_calls) == 1 and len(proto.lists["circuits"].appended) == (2 if name in ("MEASURE", "CMEASURE") else 1) and proto.lists["circuits"].appended[-1] is init_calls[0][0][0])
     if len(init_calls) == 1:
         a, k = init_calls[0]
